@@ -118,6 +118,12 @@ class LibRegistry:
 
     def array_setitem(self, itp, arr, sel, value):
         cx = itp.cx
+        if arr.buf.owner == "arg" and not cx.spec_side:
+            # a store into an array the CALLER owns: reported where it happens, so that it is seen even when the store
+            # pattern itself is outside the modelled subset (the path is then cut short, its obligations are kept)
+            q = cx.fn_stack[-1].split(".")[-1] if getattr(cx, "fn_stack", None) else "?"
+            cx.oblige(f"frame.store_into_callers_array#{cx.ordinal('frame.store')}", False, "frame",
+                      f"{q} writes into the array {arr.buf.name or '<argument>'} that belongs to its caller")
         sels = sel if isinstance(sel, tuple) and not (sel and sel[0] == "slice") else (sel,)
         if isinstance(value, (list, tuple)):
             value = to_array(itp, value)
